@@ -18,15 +18,16 @@ RULE = (
     "cards of several styles; and once with the margins set by set_all_margins_from_cvrs for two contests, the other contest listed first and present on every other card; and once on assertion objects that were used before on an earlier version of the population, in which batch R was still pooled and the CVRs differed) and "
     "mean(B) - 1/2 is compared with (2 mean(A) - 1) / (2(2u - v)), A from the reference assorter (unfindable -> 0, missing "
     "contest under style -> 0), u, v and the pool means taken from the library's own attributes.  Non-trivial = state with "
-    "a discrepancy, an unfindable card or a pooled card; distinct = distinct (kind, style, multiset)"
+    "a discrepancy, an unfindable card or a pooled card.  Plus one population of 1,500 / 12,000 (thorough: 70,000) cards per assorter kind: a pooled batch of 1,100 cards, a small one, discrepancies in both directions, unfindable cards and phantoms; distinct = distinct (kind, style, multiset)"
 )
 ASSUMPTIONS = ["relative/absolute tolerance 1e-9", "states with no card under audit (mean of nothing) are outside the quantifier and only counted"]
-REQUIRE_VAC = ["assertion_objects_used_before_on_an_earlier_population", "margins_set_for_two_contests_at_once", "states_with_pooled_phantom", "states_all_unfindable", "states_negative_margin", "states_with_discrepancy", "cards_dropped_by_style"]
+REQUIRE_VAC = ["populations_of_thousands_of_cards", "assertion_objects_used_before_on_an_earlier_population", "margins_set_for_two_contests_at_once", "states_with_pooled_phantom", "states_all_unfindable", "states_negative_margin", "states_with_discrepancy", "cards_dropped_by_style"]
 PLAN = {"quick": {"full": 2, "reduced": 3}, "thorough": {"full": 3, "reduced": 4}}
+BIG = {"quick": [1500, 12000], "thorough": [1500, 12000, 70000]}
 
 
 def bounds(tier):
-    return {"max cards, full alphabet": PLAN[tier]["full"], "max cards, reduced alphabet": PLAN[tier]["reduced"],
+    return {"large populations (cards)": BIG[tier], "max cards, full alphabet": PLAN[tier]["full"], "max cards, reduced alphabet": PLAN[tier]["reduced"],
             "alphabet sizes": {k: [len(s3.alphabet(k)), len(s3.alphabet(k, True))] for k in s3.KINDS}, "style": [True, False], "kinds": s3.KINDS}
 
 
@@ -90,7 +91,40 @@ def judge(kind, cards, use_style, feats=None, add_pool=True, via_all=False, prio
     return out, (got, want, v)
 
 
+def big_population(kind, n):
+    """n cards of a few types: mostly agreeing winner / loser cards, a pooled batch of more than a thousand cards with
+    mixed contents, a second small pooled batch, some discrepancies of each direction, a few unfindable cards and phantoms"""
+    third = "third" if kind.startswith("irv") else "over"
+    cards = []
+    cards += [("win", "win", "P", False)] * 700 + [("lose", "lose", "P", False)] * 380 + [("blank", "win", "P", False)] * 7 + [("lacks", "lacks", "P", False)] * 40
+    cards += [("lose", "win", "Q", False)] * 3 + [("win", "win", "Q", False)] * 5
+    cards += [("win", "lose", None, False)] * 9 + [("lose", "win", None, False)] * 4 + [(third, "win", "R", False)] * 3 + [("win", "unfindable", None, False)] * 2
+    cards += [("lacks", "unfindable", None, True)] * 3 + [("blank", "lacks", "P", True)] * 2
+    rest = n - len(cards)
+    cards += [("win", "win", None, False)] * (rest * 11 // 20) + [("lose", "lose", None, False)] * (rest * 8 // 20)
+    cards += [("lacks", "lacks", None, False)] * (n - len(cards))
+    return cards
+
+
+def run_big(sh, rec):
+    _, kind, n = sh
+    cards = big_population(kind, n)
+    rec.state()
+    for style, add_pool, via_all in ((True, True, False), (False, True, False), (True, True, True)):
+        feats = set()
+        v, o = judge(kind, cards, style, feats, add_pool, via_all)
+        rec.trans()
+        rec.evals()
+        rec.trace()
+        rec.vac("populations_of_thousands_of_cards")
+        rec.observe((kind, n, style, via_all, o))
+        for key, what in v:
+            rec.violate(key.replace("C03|", "C03|big|", 1), what[:300] + f" [population of {n} cards]", {"big": True, "kind": kind, "n": n, "style": style, "add_pool": add_pool, "via_all": via_all})
+
+
 def run_shard(sh, rec):
+    if sh[0] == "big":
+        return run_big(sh, rec)
     kind, n, first, reduced, last = sh
     alpha = s3.alphabet(kind, reduced)
     for ms in s3.multisets(len(alpha), n, first):
@@ -135,8 +169,14 @@ def explore(tier, seed):
         for n in range(pl["full"] + 1, pl["reduced"] + 1):
             for first in range(len(s3.alphabet(kind, True))):
                 sh.append((kind, n, first, True, n == pl["reduced"]))
+    for kind in s3.KINDS:
+        for n in BIG[tier]:
+            sh.append(("big", kind, n))
     return core.pmap(run_shard, sh, seed, progress="C03")
 
 
 def run_case(case):
+    if case.get("big"):
+        v = judge(case["kind"], big_population(case["kind"], case["n"]), case["style"], None, case["add_pool"], case["via_all"])[0]
+        return [(k.replace("C03|", "C03|big|", 1), w) for k, w in v]
     return judge(case["kind"], [tuple(c) for c in case["cards"]], case["style"], None, case.get("add_pool", True), case.get("via_all", False), case.get("prior", False))[0]
